@@ -2,7 +2,7 @@
 import json, os
 from .context import Ctx
 from .report import Report
-from . import rules_effects, rules_own, rules_wipe, rules_tables, rules_bits, rules_api, rules_char, rules_cmp
+from . import rules_effects, rules_own, rules_wipe, rules_tables, rules_bits, rules_api, rules_char, rules_cmp, rules_birthday
 
 TB_COMMON = ['clang-14 parsing and -O0 lowering of C11 (+ opt-14 mem2reg)', 'LLVM x86-64 data layout',
              'tools/irfacts.cc (IR -> JSON, no analysis)', 'psa/ir.py CFG, dominators, inclusion-based points-to']
@@ -193,6 +193,18 @@ def c08(ctx, rep):
             '(contradiction rule), prefix-counter pairing and threshold, cursor discipline; table preconditions of unambiguity')
 
 
+def c11(ctx, rep):
+    rules_birthday.birthday(ctx, rep)
+    rules_api.create(ctx, rep)
+    rules_bits.packing(ctx, rep, want=('layout', 'inverse'))
+    rules_bits.storage(ctx, rep)
+    rules_bits.storage_total(ctx, rep)
+    rules_api.crypt(ctx, rep)
+    return ('interval abstract interpretation of the two birthday functions over the 1024 month intervals and the out-of-range classes '
+            '(covers all 2^64 clock values); the stamp comes from the injected clock (create summary); the 10 bits are carried unchanged by '
+            'packing, storage and crypt (bit identities)')
+
+
 def c19(ctx, rep):
     rules_char.char_sites(ctx, rep)
     rules_char.byte_order_tables(ctx, rep)
@@ -205,6 +217,7 @@ REGISTRY = {
     'C08': dict(fn=c08, level='other', tb=TB_COMMON + ['psa/rules_cmp.py idiom classifiers (non-ASCII test, NUL test, byte equality)']),
     'C09': dict(fn=c09, level='other', tb=TB_COMMON + ['psa/bitflow.py', 'psa/harness.py summaries']),
     'C10': dict(fn=c10, level='proof', tb=TB_COMMON + ['psa/bitflow.py']),
+    'C11': dict(fn=c11, level='proof', tb=TB_COMMON + ['psa/interval.py interval transfer functions', 'published constants EPOCH / TIME_STEP in psa/rules_birthday.py', 'psa/bitflow.py']),
     'C12': dict(fn=c12, level='proof', tb=TB_COMMON + ['psa/bitflow.py', 'summaries of injected functions in psa/harness.py']),
     'C13': dict(fn=c13, level='other', tb=TB_COMMON + ['psa/bitflow.py']),
     'C15': dict(fn=c15, level='proof', tb=TB_COMMON + ['psa/paths.py path walker (phi resolution, constant folding)']),
